@@ -1,19 +1,441 @@
 package main
 
 import (
+	"encoding/json"
+	"flag"
 	"fmt"
-	"golang.org/x/tools/go/packages"
-	"golang.org/x/tools/go/ssa"
-	"golang.org/x/tools/go/ssa/ssautil"
+	"os"
+	"path/filepath"
+	"runtime"
+	"sort"
+	"strconv"
+	"strings"
+	"time"
 )
 
+// PropertyConfig describes one claimed property: which packages are loaded and which functions
+// under contract carry it.
+type PropertyConfig struct {
+	Property    string   `json:"property"`
+	Packages    []string `json:"packages"`
+	Functions   []string `json:"functions"` // key prefixes; empty = every in-repo contract of the loaded contract files
+	Exclude     []string `json:"exclude"`
+	TrustedBase []string `json:"trusted_base"`
+	NotDecided  []string `json:"not_decided"`
+	Assumptions []string `json:"assumptions"`
+	Bounded     []BoundedSpec `json:"bounded"`
+	ReplayFamily string  `json:"replay_family"`
+	Strings     string   `json:"strings"`
+}
+
+type BoundedSpec struct {
+	Name    string `json:"name"`
+	Package string `json:"package"`
+	Test    string `json:"test"`   // test function name inside the harness file
+	File    string `json:"file"`   // harness source under /verif/bounded
+	Quick   string `json:"quick"`  // bound description / env value for quick tier
+	Thorough string `json:"thorough"`
+}
+
+type KnownFinding struct {
+	Property   string `json:"property"`
+	Status     string `json:"status"` // known | fixed
+	Obligation string `json:"obligation"`
+	Input      string `json:"input,omitempty"`
+	What       string `json:"what"`
+	Commit     string `json:"commit,omitempty"`
+}
+
+type knownFile struct {
+	Findings []KnownFinding `json:"findings"`
+}
+
+var verifDir = "/verif"
+
 func main() {
-	cfg := &packages.Config{Mode: packages.LoadAllSyntax, Dir: "/repo", BuildFlags: []string{"-tags=verif"}}
-	pkgs, err := packages.Load(cfg, "./cache")
-	if err != nil {
-		panic(err)
+	if len(os.Args) < 2 {
+		fmt.Fprintln(os.Stderr, "usage: govc check|list|dump ...")
+		os.Exit(2)
 	}
-	prog, spkgs := ssautil.AllPackages(pkgs, ssa.GlobalDebug)
-	prog.Build()
-	fmt.Println(len(spkgs), spkgs[0])
+	if d := os.Getenv("VERIF_DIR"); d != "" {
+		verifDir = d
+	}
+	switch os.Args[1] {
+	case "check":
+		os.Exit(cmdCheck(os.Args[2:]))
+	case "dump":
+		os.Exit(cmdDump(os.Args[2:]))
+	default:
+		fmt.Fprintln(os.Stderr, "unknown command", os.Args[1])
+		os.Exit(2)
+	}
+}
+
+func loadConfig(id string) (*PropertyConfig, error) {
+	data, err := os.ReadFile(filepath.Join(verifDir, "properties", id+".json"))
+	if err != nil {
+		return nil, err
+	}
+	var c PropertyConfig
+	if err := json.Unmarshal(data, &c); err != nil {
+		return nil, err
+	}
+	return &c, nil
+}
+
+func selectContracts(w *World, cfg *PropertyConfig) []*FuncContract {
+	var out []*FuncContract
+	for _, fc := range w.contracts {
+		if fc.Extern || fc.Inline {
+			continue
+		}
+		if strings.HasPrefix(fc.Key, "interface:") {
+			continue
+		}
+		ok := len(cfg.Functions) == 0
+		for _, p := range cfg.Functions {
+			if strings.HasPrefix(fc.Key, p) {
+				ok = true
+			}
+		}
+		for _, p := range cfg.Exclude {
+			if strings.HasPrefix(fc.Key, p) {
+				ok = false
+			}
+		}
+		if ok {
+			out = append(out, fc)
+		}
+	}
+	sort.Slice(out, func(i, j int) bool { return out[i].Key < out[j].Key })
+	return out
+}
+
+func cmdDump(args []string) int {
+	fs := flag.NewFlagSet("dump", flag.ExitOnError)
+	prop := fs.String("property", "", "property id")
+	repo := fs.String("repo", "/repo", "repository")
+	name := fs.String("obligation", "", "obligation name (substring)")
+	fs.Parse(args)
+	cfg, err := loadConfig(*prop)
+	if err != nil {
+		fmt.Fprintln(os.Stderr, err)
+		return 2
+	}
+	w, err := LoadWorld(*repo, filepath.Join(verifDir, "specs"), cfg.Packages)
+	if err != nil {
+		fmt.Fprintln(os.Stderr, err)
+		return 2
+	}
+	if err := resolveGhosts(w); err != nil {
+		fmt.Fprintln(os.Stderr, err)
+		return 2
+	}
+	for _, fc := range selectContracts(w, cfg) {
+		fn := w.funcs[fc.Key]
+		if fn == nil {
+			continue
+		}
+		rep := VerifyFunction(w, fn, fc)
+		if rep.Unsupported != "" {
+			fmt.Printf("; %s UNSUPPORTED: %s\n", fc.Key, rep.Unsupported)
+		}
+		for _, o := range rep.Obligations {
+			if *name == "" {
+				fmt.Println(o.Name)
+			} else if strings.Contains(o.Name, *name) {
+				fmt.Println(queryText(rep.vc, o, nil))
+				return 0
+			}
+		}
+	}
+	return 0
+}
+
+func cmdCheck(args []string) int {
+	fs := flag.NewFlagSet("check", flag.ExitOnError)
+	prop := fs.String("property", "", "property id")
+	tier := fs.String("tier", "quick", "quick|thorough")
+	repo := fs.String("repo", "/repo", "repository")
+	seed := fs.Int("seed", 0, "seed")
+	verbose := fs.Bool("v", false, "verbose")
+	noEvidence := fs.Bool("no-evidence", false, "do not write the evidence file (selftests)")
+	fs.Parse(args)
+	if s := os.Getenv("VERIF_SEED"); s != "" {
+		if n, err := strconv.Atoi(s); err == nil {
+			*seed = n
+		}
+	}
+	start := time.Now()
+	cfg, err := loadConfig(*prop)
+	if err != nil {
+		fmt.Fprintln(os.Stderr, "config:", err)
+		return 2
+	}
+	run := &checkRun{cfg: cfg, tier: *tier, seed: *seed, repo: *repo, verbose: *verbose, start: start, writeEvidence: !*noEvidence}
+	return run.run()
+}
+
+type checkRun struct {
+	cfg           *PropertyConfig
+	tier          string
+	seed          int
+	repo          string
+	verbose       bool
+	start         time.Time
+	writeEvidence bool
+	reports       []*FuncReport
+	violations    []violation
+	knownHits     []string
+	bounded       []map[string]any
+}
+
+type violation struct {
+	obligation string
+	status     string
+	detail     string
+	replay     string
+	hasInput   bool
+}
+
+func (r *checkRun) run() int {
+	id := r.cfg.Property
+	w, err := LoadWorld(r.repo, filepath.Join(verifDir, "specs"), r.cfg.Packages)
+	if err != nil {
+		// the tree does not load (or a contract does not parse): this is a broken check input, reported as a violation
+		return r.fatalViolation("load", err.Error())
+	}
+	if err := resolveGhosts(w); err != nil {
+		return r.fatalViolation("contracts", err.Error())
+	}
+	contracts := selectContracts(w, r.cfg)
+	if len(contracts) == 0 {
+		return r.fatalViolation("contracts", "no function under contract found (vacuous check)")
+	}
+	for _, fc := range contracts {
+		fn := w.funcs[fc.Key]
+		if fn == nil {
+			rep := &FuncReport{Key: fc.Key}
+			rep.Obligations = []*Obligation{{Name: fc.Key + "#target.missing", Kind: "target", Func: fc.Key, Result: "missing", Detail: "function under contract no longer exists"}}
+			r.reports = append(r.reports, rep)
+			continue
+		}
+		rep := VerifyFunction(w, fn, fc)
+		if rep.Unsupported != "" {
+			rep.Obligations = append(rep.Obligations, &Obligation{Name: fc.Key + "#unsupported", Kind: "unsupported", Func: fc.Key, Result: "unsupported", Detail: rep.Unsupported})
+		}
+		r.reports = append(r.reports, rep)
+	}
+	sc := solveConfig{workDir: filepath.Join(verifDir, "work", id), quickT: 4, slowT: 12, workers: max(2, runtime.NumCPU()/2)}
+	if r.tier == "thorough" {
+		sc.quickT, sc.slowT, sc.allAgree = 20, 60, true
+	}
+	os.RemoveAll(sc.workDir)
+	var solvable []*FuncReport
+	for _, rep := range r.reports {
+		if rep.vc != nil {
+			solvable = append(solvable, rep)
+		}
+	}
+	solveAll(solvable, sc)
+	return r.finish(w)
+}
+
+func (r *checkRun) fatalViolation(stage, msg string) int {
+	id := r.cfg.Property
+	path := filepath.Join(verifDir, "replays", id, stage+".json")
+	os.MkdirAll(filepath.Dir(path), 0o755)
+	data, _ := json.MarshalIndent(map[string]any{"property": id, "obligation": stage, "verdict": "no-failing-input-found", "detail": msg}, "", " ")
+	os.WriteFile(path, data, 0o644)
+	fmt.Printf("FAILED %s: %s\n", stage, msg)
+	fmt.Printf("VIOLATION property=%s replay=%s no-failing-input-found\n", id, path)
+	r.writeEvidenceFile(nil, 1)
+	return 1
+}
+
+func loadKnown() []KnownFinding {
+	data, err := os.ReadFile(filepath.Join(verifDir, "known_findings.json"))
+	if err != nil {
+		return nil
+	}
+	var kf knownFile
+	json.Unmarshal(data, &kf)
+	return kf.Findings
+}
+
+func (r *checkRun) finish(w *World) int {
+	id := r.cfg.Property
+	known := loadKnown()
+	total, discharged, covers, coverOK := 0, 0, 0, 0
+	bySolver := map[string]int{}
+	var maxT, sumT float64
+	var samples []map[string]any
+	var funcs []map[string]any
+	notes := map[string]bool{}
+	exit := 0
+	knownSeen := map[string]bool{}
+	for _, rep := range r.reports {
+		fobl, fmax := 0, 0.0
+		for _, n := range rep.Notes {
+			notes[n] = true
+		}
+		for _, o := range rep.Obligations {
+			sumT += o.TimeS
+			if o.TimeS > maxT {
+				maxT = o.TimeS
+			}
+			if o.TimeS > fmax {
+				fmax = o.TimeS
+			}
+			if o.Cover {
+				covers++
+				if o.Result != "vacuous" {
+					coverOK++
+					continue
+				}
+			} else {
+				total++
+				fobl++
+				if o.Result == "unsat" {
+					discharged++
+					bySolver[o.Solver]++
+					if len(samples) < 6 && (total%7 == 1) {
+						samples = append(samples, map[string]any{"obligation": o.Name, "result": o.Result, "solver": o.Solver, "time_s": round3(o.TimeS), "smt_bytes": o.Bytes, "clause": o.Src})
+					}
+					continue
+				}
+			}
+			// failed obligation
+			isKnown := false
+			for _, k := range known {
+				if k.Property == id && k.Status == "known" && k.Obligation == o.Name {
+					isKnown = true
+					if !knownSeen[k.Obligation] {
+						knownSeen[k.Obligation] = true
+						fmt.Printf("KNOWN-FINDING: property=%s %s: %s\n", id, k.Obligation, k.What)
+						r.knownHits = append(r.knownHits, k.Obligation)
+					}
+				}
+			}
+			if isKnown {
+				total--
+				fobl--
+				continue
+			}
+			v := r.reportViolation(w, rep, o)
+			r.violations = append(r.violations, v)
+			exit = 1
+		}
+		if rep.vc != nil {
+			funcs = append(funcs, map[string]any{"name": rep.Key, "ssa_sha256": rep.SSAHash, "ssa_instrs": rep.Instrs, "obligations": fobl, "max_solver_s": round3(fmax), "script_bytes": rep.ScriptBytes})
+		}
+		if r.verbose {
+			for _, o := range rep.Obligations {
+				fmt.Printf("  %-8s %-90s %s %.2fs %s\n", o.Result, o.Name, o.Solver, o.TimeS, o.Detail)
+			}
+		}
+	}
+	// bounded stand-ins
+	bexit := r.runBounded()
+	if bexit != 0 {
+		exit = 1
+	}
+	if total == 0 && exit == 0 {
+		fmt.Println("FAILED: zero obligations generated (vacuous check)")
+		return r.fatalViolation("vacuity", "zero obligations generated")
+	}
+	fmt.Printf("%s %s: functions=%d obligations=%d discharged=%d cover=%d/%d known_findings=%d violations=%d wall=%.1fs\n",
+		id, r.tier, len(funcs), total, discharged, coverOK, covers, len(r.knownHits), len(r.violations), time.Since(r.start).Seconds())
+	cov := map[string]any{
+		"obligations": total, "discharged": discharged,
+		"checker_cmd":  fmt.Sprintf("./bin/check %s %s", id, r.tier),
+		"trusted_base": append([]string{"Go type/memory safety (good-heap axioms)", "z3 4.8.12 | z3 5.1.0 | cvc5 1.0.3", "go/ssa translation of the source (x/tools v0.50.0)"}, r.cfg.TrustedBase...),
+		"functions_under_contract": funcs,
+		"by_solver":                bySolver,
+		"solver_time_s":            map[string]any{"total": round3(sumT), "max": round3(maxT)},
+		"cover_checks":             map[string]any{"expected_not_unsat": covers, "ok": coverOK},
+		"samples":                  samples,
+		"bounded_standins":         r.bounded,
+		"not_decided":              r.cfg.NotDecided,
+		"known_findings_reported":  r.knownHits,
+		"violations":               r.violationNames(),
+	}
+	var assumptions []string
+	assumptions = append(assumptions, r.cfg.Assumptions...)
+	for n := range notes {
+		assumptions = append(assumptions, n)
+	}
+	sort.Strings(assumptions)
+	cov["assumption_scan"] = len(assumptions)
+	r.writeEvidenceFileFull(cov, assumptions, len(r.violations))
+	return exit
+}
+
+func (r *checkRun) violationNames() []string {
+	var out []string
+	for _, v := range r.violations {
+		out = append(out, v.obligation)
+	}
+	return out
+}
+
+func round3(f float64) float64 { return float64(int(f*1000+0.5)) / 1000 }
+
+func (r *checkRun) reportViolation(w *World, rep *FuncReport, o *Obligation) violation {
+	id := r.cfg.Property
+	v := violation{obligation: o.Name, status: o.Result, detail: o.Detail}
+	safe := strings.NewReplacer("/", "_", "*", "", "(", "", ")", "", "[", "_", "]", "_", " ", "", "$", "_", ">", "_", ":", "_").Replace(o.Name)
+	path := filepath.Join(verifDir, "replays", id, safe+".json")
+	os.MkdirAll(filepath.Dir(path), 0o755)
+	rec := map[string]any{
+		"property": id, "obligation": o.Name, "kind": o.Kind, "function": o.Func, "clause": o.Src,
+		"solver_status": o.Result, "solver_detail": o.Detail, "verdict": "no-failing-input-found",
+	}
+	if o.Model != "" {
+		rec["query_file"] = o.Model
+	}
+	// try to obtain and replay a counterexample
+	if rep.vc != nil && (o.Result == "sat" || o.Result == "unknown" || o.Result == "timeout") && !o.Cover {
+		if rp := tryReplay(r, w, rep, o); rp != nil {
+			for k, val := range rp {
+				rec[k] = val
+			}
+			if rp["verdict"] == "confirmed" {
+				v.hasInput = true
+			}
+		}
+	}
+	data, _ := json.MarshalIndent(rec, "", " ")
+	os.WriteFile(path, data, 0o644)
+	v.replay = path
+	suffix := " no-failing-input-found"
+	if v.hasInput {
+		suffix = ""
+	}
+	fmt.Printf("FAILED %s [%s] %s %s\n", o.Name, o.Result, o.Src, o.Detail)
+	fmt.Printf("VIOLATION property=%s replay=%s%s\n", id, path, suffix)
+	return v
+}
+
+func (r *checkRun) writeEvidenceFile(cov map[string]any, violations int) {
+	if cov == nil {
+		cov = map[string]any{"obligations": 1, "discharged": 0, "checker_cmd": "./bin/check " + r.cfg.Property + " " + r.tier, "trusted_base": []string{}, "explanation": "check aborted before obligations were generated"}
+	}
+	r.writeEvidenceFileFull(cov, r.cfg.Assumptions, violations)
+}
+
+func (r *checkRun) writeEvidenceFileFull(cov map[string]any, assumptions []string, violations int) {
+	if !r.writeEvidence {
+		return
+	}
+	if assumptions == nil {
+		assumptions = []string{}
+	}
+	ev := map[string]any{
+		"property_id": r.cfg.Property, "tier": r.tier, "seed": r.seed, "level": "proof",
+		"coverage": cov, "assumptions": assumptions, "wall_s": round3(time.Since(r.start).Seconds()), "violations": violations,
+	}
+	data, _ := json.MarshalIndent(ev, "", " ")
+	os.MkdirAll(filepath.Join(verifDir, "evidence"), 0o755)
+	os.WriteFile(filepath.Join(verifDir, "evidence", r.cfg.Property+".json"), data, 0o644)
 }
